@@ -48,30 +48,60 @@ Proof.
     apply key_eqb_eq in E'. subst. now rewrite key_eqb_refl in E.
 Qed.
 
-Ltac split_ifs :=
-  repeat match goal with
-  | |- context [if ?b then _ else _] => let E := fresh "E" in destruct b eqn:E
+Lemma loc_counter_cases : forall m a b,
+  loc_counter m a b = KLocEcs \/ loc_counter m a b = KLocEmpty \/ loc_counter m a b = KLocDefault \/
+  loc_counter m a b = KLocFallback \/ loc_counter m a b = KLocResolver.
+Proof.
+  intros m a b. unfold loc_counter.
+  destruct (0 <? m); [tauto|].
+  destruct ((a =? 0) && (b =? 0)); [tauto|].
+  destruct ((a =? 0) && (b =? 1)); [tauto|].
+  destruct ((a =? 0) && (b =? 2)); tauto.
+Qed.
+
+(* case analysis along the control flow: reduce, split on the outermost test, repeat.
+   Nothing is unfolded eagerly, so the term never duplicates its branches. *)
+Ltac split_cond b :=
+  first [ is_var b; destruct b
+        | match b with
+          | negb ?x => is_var x; destruct x
+          | negb ?x && _ => is_var x; destruct x
+          | ?x && _ => is_var x; destruct x
+          end
+        | let E := fresh "E" in destruct b eqn:E ].
+Ltac split_one :=
+  match goal with
+  | |- context [if ?b then _ else _] =>
+      lazymatch b with
+      | context [if _ then _ else _] => fail
+      | _ => split_cond b
+      end
   end.
+Ltac split_ifs :=
+  repeat (cbn; unfold write_and_log, serve_lookup; cbn; split_one);
+  cbn; unfold write_and_log, serve_lookup; cbn.
 
 Ltac open_serve q :=
   destruct q as [rok dobit qt eok pok loc con cst iaerr ns auth dserr dsauth nf rf uok sa werr];
-  unfold serve, serve_lookup, write_and_log, out_app, incs, located, sent;
+  unfold located, sent, serve;
   cbn [q_reader_ok q_do q_qtype q_edns_ok q_pack_ok q_loc q_cache_on q_cache q_isauth_err q_ns q_auth
-       q_ds_err q_ds_auth q_nfound q_record_found q_unpack_ok q_sent_answers q_write_err
-       o_incs o_logs o_writes o_ret];
-  destruct loc as [| |mask id0 id1]; destruct cst as [hrc haa| |].
+       q_ds_err q_ds_auth q_nfound q_record_found q_unpack_ok q_sent_answers q_write_err];
+  destruct loc as [| |mask id0 id1];
+  [ | | let Hl := fresh "Hl" in
+        destruct (loc_counter_cases mask id0 id1) as [Hl|[Hl|[Hl|[Hl|Hl]]]]; rewrite Hl; clear Hl ];
+  destruct cst as [hrc haa| |].
 
 (* DNS_queries exactly once, always *)
 Lemma serve_queries_once : forall q, cnt KQueries (o_incs (serve q)) = 1%nat.
 Proof.
-  intros q. open_serve q; unfold loc_counter; split_ifs; reflexivity.
+  intros q. open_serve q; split_ifs; reflexivity.
 Qed.
 
 (* the type counter of the question, exactly once iff a reader was acquired *)
 Lemma serve_type_once : forall q,
   cnt (KType (q_qtype q)) (o_incs (serve q)) = b2n (q_reader_ok q).
 Proof.
-  intros q. open_serve q; unfold loc_counter; split_ifs; cbn; rewrite ?N.eqb_refl; reflexivity.
+  intros q. open_serve q; split_ifs; cbn; rewrite ?N.eqb_refl; reflexivity.
 Qed.
 
 Lemma serve_type_other : forall q t, t <> q_qtype q -> cnt (KType t) (o_incs (serve q)) = 0%nat.
@@ -83,7 +113,7 @@ Qed.
 (* never twice: no counter is incremented more than once per query *)
 Lemma serve_at_most_once : forall q k, (cnt k (o_incs (serve q)) <= 1)%nat.
 Proof.
-  intros q k. open_serve q; unfold loc_counter; split_ifs;
+  intros q k. open_serve q; split_ifs;
     destruct k; cbn; repeat match goal with |- context [?a =? ?b] => destruct (a =? b) eqn:? end;
     try lia;
     repeat match goal with H : (_ =? _) = true |- _ => apply N.eqb_eq in H end; subst; try lia; try discriminate.
@@ -115,7 +145,7 @@ Definition outcome_follows_sent (o : outcome) : Prop :=
 Lemma serve_outcome : forall q, outcome_follows_sent (serve q).
 Proof.
   intros q. unfold outcome_follows_sent.
-  open_serve q; unfold loc_counter; split_ifs; cbn;
+  open_serve q; split_ifs; cbn;
     repeat match goal with
     | H : (?a =? ?b) = _ |- context [?a =? ?b] => rewrite H
     | H : negb ?a = _ |- context [negb ?a] => rewrite H
@@ -138,7 +168,7 @@ Lemma serve_location_cache : forall q,
   cache_total (o_incs (serve q)) = b2n (located q && q_cache_on q).
 Proof.
   intros q. unfold loc_total, cache_total.
-  open_serve q; unfold loc_counter; split_ifs; cbn; split; reflexivity.
+  open_serve q; split_ifs; cbn; split; reflexivity.
 Qed.
 
 (* cache hit counter iff the cached response was the one used *)
